@@ -153,7 +153,7 @@ func Load(repo string, overlay map[string][]byte, patterns []string) (*Engine, e
 func isPolyPath(p string) bool { return p == polyMod || strings.HasPrefix(p, polyMod+"/") }
 
 var initDeny = map[string]bool{
-	"runtime": true, "reflect": true, "os": true, "syscall": true, "unsafe": true, "time": true,
+	"runtime": true, "reflect": true, "os": true, "syscall": true, "unsafe": true,
 	"internal/poll": true, "net": true, "os/signal": true, "os/exec": true, "os/user": true,
 	"runtime/debug": true, "runtime/pprof": true, "runtime/trace": true, "runtime/cgo": true,
 	"crypto/rand": true, "log": true, "testing": true, "flag": true, "net/http": true,
@@ -168,7 +168,7 @@ func (e *Engine) newInterp() (*Interp, error) {
 		return nil, err
 	}
 	in := &Interp{eng: e, prog: e.prog, ctx: ctx, sol: sol, sizes: &types.StdSizes{WordSize: 8, MaxAlign: 8},
-		fnInfos: map[*ssa.Function]*fnInfo{}, constCache: map[*ssa.Const]value{}}
+		fnInfos: map[*ssa.Function]*fnInfo{}, constCache: map[*ssa.Const]value{}, intrCache: map[*ssa.Function]intrinsicFn{}}
 	return in, nil
 }
 
